@@ -117,3 +117,16 @@ VARIANTS += [
     V("constructor-items-not-counted", I,
       "            n_items += repetitions\n", "", "fire", "D3.3"),
 ]
+
+from sa.selftests import Variant  # noqa: E402
+
+VARIANTS += [
+    Variant("damv-q-range-before-orientation", I, [
+        ("    # ensure horizontal orientation (width >= height)\n"
+         "    if bin_height > bin_width:",
+         "    q_max: Final[int] = bin_height // 2\n"
+         "    if bin_height > bin_width:"),
+        ("                          for q in range((bin_height // 2) + 1))",
+         "                          for q in range(q_max + 1))")],
+        "fire", "D3.2"),
+]
